@@ -27,6 +27,7 @@ import (
 	"github.com/meshplus/bitxhub/internal/ledger/genesis"
 	"github.com/meshplus/bitxhub/internal/model/events"
 	"github.com/meshplus/bitxhub/internal/repo"
+	"github.com/meshplus/bitxhub/internal/router"
 	"github.com/meshplus/bitxhub/verif/sim"
 	"github.com/sirupsen/logrus"
 )
@@ -131,6 +132,7 @@ type replica struct {
 	evCh    chan events.ExecutedEvent
 	sub     event.Subscription
 	height  uint64
+	rt      *router.InterchainRouter
 }
 
 func scratchDir() string {
@@ -214,6 +216,7 @@ func (r *replica) open() error {
 	r.evCh = make(chan events.ExecutedEvent, 16)
 	r.sub = ex.SubscribeBlockEvent(r.evCh)
 	r.height = lg.GetChainMeta().Height
+	r.rt = nil
 	return nil
 }
 
